@@ -71,26 +71,42 @@ SPEC = {
                 'refuses produces no outcome (used to read C05_reported_roots_verified as the end-to-end statement)'],
     'assumptions': ['every previous outcome was written by the state machine itself (sigs_imply_roots is an invariant, it holds of the '
                     'initial empty outcome)'],
-    'level_text': 'Proof: 24 Coq theorems. History level (Model/C05Life.v, one long-lived Processor over any list of rounds with an arbitrary '
-                  'environment per round, induction over the round list): the history is a chain of previous outcomes; in EVERY round of EVERY '
-                  'history the crypto oracle is consulted only in a building round and with exactly the signer addresses, report version, contract '
-                  'address and digest of THAT round\'s previous outcome (C05_life_verified_against_agreed_config: no earlier round, no initial state, '
-                  'no controller connection occurs); a new outcome carrying roots is written only under a bundle accepted against that set, its roots '
-                  'among the verified lane updates, its signatures the verified ones, its RMN config (F_rmn) the previous outcome\'s '
-                  '(C05_life_roots_need_verified_bundle, premise quorum_sound); two instances that reached the same previous outcome by any two '
-                  'histories from any two states behave alike in the next round (C05_life_round_memoryless, C05_life_call_memoryless). Round level: Observation in a building round (RMN enabled, no retry) succeeds only with a well-formed '
-                  'bundle whose signatures the crypto oracle accepted for exactly the report built from the previous outcome\'s RMN '
-                  'config and the bundle\'s lane updates; a bundle in any other round is refused; the only unverified observations are '
-                  'RMN off / no bundle outside building / announced retry; with a bundle the reported roots are exactly the agreed '
-                  'roots equal to a signed lane update on chain, interval, address and root (iff), sorted, one per chain; composition '
-                  'of the two; signatures never without roots over any run and in the emitted report (after fixes/F11.patch); accepted '
-                  'with roots only with F+1 signatures for every F (after fixes/F28.patch); an announced retry is inert in Observation, ValidateObservation and Outcome together; the value returned next to a refused observation is empty; roots are observed only in a building round for the previous outcome\'s ranges; the honest leader\'s query comes from the controller asked for exactly those ranges; refutations of the unrepaired functions '
-                  '(F10 panic, F11, F28). Correspondence: ONE long-lived set of processors over several report cycles with the RMN remote config / RMNHome / addresses / bundles changing between rounds, judged per round against the memoryless model on the round\'s current inputs (life), one long-lived Plugin over report cycles (replife), the chain Query -> Observation -> ValidateObservation -> Outcome over histories, Observation with a recording crypto fake, Outcome, Reports and '
-                  'ShouldAcceptAttestedReport run against the model every run',
-    'level_note': 'Trusted: Coq kernel, hand-written model, differential harness. Signature verification, address lookups and the '
-                  'consensus computation are oracles / inputs. No axioms.',
-    'modelled': 'initializeRMNController over rounds (init_step: InitConnection iff RMN on, config present, controller connected with another digest; arguments = digest of the previous outcome, node set RMNHome shows now), Processor.Query (controller answer as input), getObservation (observer answers as inputs; the merkle roots through the C02 model of ObserveMerkleRoots on the previous outcome\'s ranges), the retry rule of ValidateObservation, initializeRMNController (as an input code), verifyQuery, shouldSkipRMNVerification, NewECDSASigsFromPB, '
-                'NewLaneUpdatesFromPB, buildReport, the merkle-root part of Plugin.Reports, the RMN gate of ShouldAcceptAttestedReport '
-                '(curse check and decode errors are inputs, see C16/C15). A commit.Plugin constructed by NewPlugin with RMN enabled is not driven: NewPlugin builds the real rmn.Controller from a PeerClient, the scripted controller can only be injected at the processor (NewProcessor), which is what the chain part does. With RMN disabled a leader-supplied bundle still filters '
-                'roots in buildReport (observation F10b; not part of the property text)',
+    'level_text': 'Proof: 39 closed Coq theorems. 24 property theorems. Round level: Observation in a building round (RMN enabled, no retry) succeeds only with a '
+                  "well-formed bundle whose signatures the crypto oracle accepted for exactly the report built from the previous outcome's RMN config and the bundle's "
+                  'lane updates (C05_observe_requires_bundle); a bundle in any other round is refused; the only unverified observations are RMN off / no bundle outside '
+                  'building / announced retry (C05_unverified_observation_cases); the reported roots are exactly the agreed roots equal to a signed lane update on chain, '
+                  'interval, address and root (C05_roots_signed, iff), sorted, one per chain; signatures never without roots over any run and in the emitted report '
+                  '(C05_no_sigs_without_roots, C05_report_no_sigs_without_roots); a report with roots is accepted only with F_rmn+1 signatures for every F '
+                  "(C05_accept_gate); an announced retry is inert; the honest leader's query comes from the controller asked for exactly the previous outcome's ranges "
+                  '(C05_honest_query). History level, induction over any round list of one long-lived Processor: in EVERY round the crypto oracle is consulted only in a '
+                  "building round and with exactly the signers, versions, addresses and digest of THAT round's previous outcome "
+                  '(C05_life_verified_against_agreed_config); an outcome with roots is written only under a bundle accepted against that set '
+                  '(C05_life_roots_need_verified_bundle); two instances with the same previous outcome behave alike whatever their past (C05_life_round_memoryless, '
+                  '_call_memoryless). Unrepaired code refuted: F10 (nil bundle part panicked), F11, F28 (+ _except_known form). Judge soundness (15 C05_judge_*): for '
+                  "each of the 7 sinks the executable property accepts the model's output and implies the Prop-level clause. Correspondence, every run: four real "
+                  'Processors from NewProcessor kept for 8..16 rounds while RMNRemote signers / F / version / digest, RMNHome nodes and addresses change, with a '
+                  'recording crypto fake that is a signature scheme and honest or Byzantine leaders (C05_life); one long-lived commit.Plugin over 4..12 Reports + '
+                  'ShouldAccept cycles (C05_replife); the chain Query -> Observation -> ValidateObservation -> Outcome; Observation, Outcome, Reports and '
+                  'ShouldAcceptAttestedReport at function level. Translation tie: Outcome.NextState (C03_gen.v, 3 theorems). Outside: a NewPlugin-built plugin with the '
+                  'real rmn.Controller is not driven (the scripted controller is injected at the Processor); agreed-ness of reported roots is C03 / C04.',
+    'level_note': 'Trusted: Coq kernel, hand-written model and theorem statements, differential harness, leaf translator. Specific: RMNCrypto.VerifyReportSignatures is '
+                  'an oracle - the theorems hold for every predicate over (signatures, report, signer addresses); the harness records the call and compares its '
+                  'ARGUMENTS, in the life part the fake is a signature scheme (sha256 of the canonical report taken as collision free) and the judge evaluates the same '
+                  'predicate. The rmn.Controller (C06), chainsel.ChainBySelector, GetContractAddress, controller initialisation and getConsensusObservation (C01) are '
+                  'inputs; report codec (JSON mock) and ReportInfo round trip are exercised, not modelled. Assumed: every previous outcome was written by the state '
+                  'machine (sigs_imply_roots is an invariant, true of the empty outcome); libocr calls Outcome only on a quorum of observations, so a building round '
+                  'whose query every honest oracle refuses produces no outcome. No axioms.',
+    'technique': 'Coq theorems (iff on reported roots, invariants and memorylessness by induction over round histories) over a hand-written Gallina model with signature '
+                 'verification as an arbitrary oracle; differential correspondence with proved judge on long-lived Processors / Plugin with a recording signature-scheme '
+                 'fake; NextState re-translated from Go (C03_gen.v)',
+    'modelled': 'initializeRMNController over rounds (init_step: InitConnection iff RMN on, config present, controller connected with another digest; arguments = '
+                'digest of the previous outcome, node set RMNHome shows now), Processor.Query (controller answer as input), getObservation (observer answers as inputs; '
+                "the merkle roots through the C02 model of ObserveMerkleRoots on the previous outcome's ranges), the retry rule of ValidateObservation, "
+                'initializeRMNController (as an input code), verifyQuery, shouldSkipRMNVerification, NewECDSASigsFromPB, NewLaneUpdatesFromPB, buildReport, the '
+                'merkle-root part of Plugin.Reports, the RMN gate of ShouldAcceptAttestedReport (curse check and decode errors are inputs, see C16/C15). A '
+                'commit.Plugin constructed by NewPlugin with RMN enabled is not driven: NewPlugin builds the real rmn.Controller from a PeerClient, the scripted '
+                'controller can only be injected at the processor (NewProcessor), which is what the chain part does. With RMN disabled a leader-supplied bundle still '
+                'filters roots in buildReport (observation F10b; not part of the property text). Translated from source per run: Outcome.NextState and its constant '
+                'blocks (C03_gen.v). Inputs of the model: the controller answer (query), crypto verdict, address and chain lookups, the consensus observation, RMNHome '
+                '/ RMNRemote configuration per round',
 }
